@@ -447,7 +447,8 @@ def _run(ctx):
     ctx.floor("C13 round-trip probes", nrt, 3)
     ctx.clause("C13.6 a binary field is written with the length member the parser fills for the same bytes")
     nbin = _binary_pairs(ctx)
-    ctx.floor("C13 binary (pointer, length) pairs written", nbin, 4)
+    ctx.count("binary_pairs_written", nbin)
+    ctx.P.__dict__.setdefault("_memo", {})["c13_binary_pairs"] = nbin
 
     # the struct-level writer/parser functions are compared pairwise; every other static helper of the
     # file (a field helper, a nested-struct helper) is expanded into its callers first
@@ -555,7 +556,7 @@ def _run(ctx):
                  "thrift_read_field_begin": h_field}
         args = [sem.Ptr("dec", 0, 1), val]
         try:
-            ret, ev, heap = sem.run(P, sk, args, heap0={("dec", do_["status"]): 0}, hooks=hooks, max_forks=8)
+            ret, ev, heap = sem.run(P, sk, args, heap0={("dec", do_["status"]): 0}, hooks=hooks, max_forks=8, inline_depth=6)
         except sem.Inconclusive as ex:
             ctx.inconclusive("R5.exhaustive", key, P.where(sk.body), "abstract execution of the skipper", str(ex))
             continue
@@ -940,5 +941,9 @@ def run(ctx):
     from .. import report
     probes = [o for o in ctx.obs if o.key.startswith(("spec|", "roundtrip|"))]
     decided = len(probes) >= 6 and not any(o.status == report.INCONCLUSIVE for o in probes)
+    if not decided:
+        # the pair rule reads call arguments; when the round-trip probes decide (unique markers for every pointer and
+        # every length member) a writer that hands its binaries over through a table of members is not a gap
+        ctx.floor("C13 binary (pointer, length) pairs written", ctx.P.__dict__.get("_memo", {}).get("c13_binary_pairs", 0), 4)
     ctx.count("extraction_gaps_settled_by_probe", thriftrt.settle_extraction(
         ctx, decided, logical_ok=ctx.P.__dict__.get("_memo", {}).get("logical_params_intact", False)))
